@@ -11,4 +11,5 @@ var All = map[string]func() *corr.Engine{
 	"C17": C17,
 	"C08": C08,
 	"C01": C01,
+	"C07": C07,
 }
